@@ -181,7 +181,7 @@ def gen(rng, size='small', focus=None):
     maints = []
     if use_maint:
         for _ in range(rng.choice([1, 1, 2])):
-            maints.append(add(dict(kind='maint', capacity=rng.choice([None, 8, 8, 16]), value=0)))
+            maints.append(add(dict(kind='maint', capacity=rng.choice([None, 8, 8, 16, 0]), value=0)))
 
     # sources
     nsrc = rng.choice([1, 1, 1, 2])
